@@ -406,6 +406,8 @@ def handle (line : String) : String :=
         | "pair" => some (.tuple [.seq (.u .w16), .str])
         | "vec_opt" => some (.seq (.option (.u .w64)))
         | "bytebuf" => some (.tuple [.u .w8, .seq (.u .w8)])
+        | "ownedbytes" => some .bytes                       -- a visitor that asks for deserialize_byte_buf
+        | "pair_ownedbytes" => some (.tuple [.u .w8, .bytes, .bytes])
         | _ => none
       match ty, bytesOfHex h with
       | some t, some bs =>
@@ -422,6 +424,10 @@ def handle (line : String) : String :=
         let b (x : Bool) : String := if x then "1" else "0"
         s!"ok {maxSize m} exact={encMax m} listed={b m.listed} pop={b (m.populated && m.optionsPopulated)} wf={b m.wf}"
       | none => "bad-op"
+    | "crcio", _ =>
+      -- the deserialising CrcModifier over a byte reader: decided by the harness oracle (accepted => the slice
+      -- entry point accepts the same frame with the same value; CrcDe.sim is the model-side statement)
+      "ok"
     | "maxprobe", _ =>
       -- a type of the harness's opportunistic catalogue (no MaxSize impl in the modelled crate): decided by the
       -- harness oracle alone if the crate ever declares a maximum for it
